@@ -47,8 +47,8 @@ ASSUMPTIONS = [
     "the monitors observe the archive through a recording dict swapped in for CoverageArchive._covered and wrappers on the public "
     "methods; they call only get_is_covered/get_fitness_for on already evaluated chromosomes (cached values)",
     "error-free = last execution result has neither test exceptions nor timeout (a missing result counts as error-free, as in the code)",
-    "the strict replacement rule is applied to CoverageArchive; for MIO an equal-size replacement of the single covered solution is "
-    "recorded as an anomaly (MIO prefers the newer of two equally long tests), a longer one without error fix is a violation",
+    "the replacement rule is applied literally to both archives; MIO's equal-size replacement of the covered solution (it prefers the "
+    "newer of two equally long tests) is a recorded known finding keyed mio:covered-solution-replaced-by-equal-size",
     "CoverageArchive.reset() is a deliberate public way to forget everything and is not part of any history",
     "re-execution uses a new TestCaseExecutor on the run's subject properties and a copy of the goal's fitness function bound to it; "
     "the SUT corpus is deterministic and stateless",
@@ -580,7 +580,7 @@ def check_log(events, ctx, source, case, truth=None):
                     if not fixes and new["size"] > old["size"]:
                         wit("mio:covered-solution-replaced-by-longer", f"target {ev['target']}: size {old['size']} (error={_err(old)}) replaced by size {new['size']} (error={_err(new)})", ev, idx)
                     elif not fixes and new["size"] == old["size"]:
-                        ctx.anomaly("mio:covered-solution-replaced-by-equal-size")
+                        wit("mio:covered-solution-replaced-by-equal-size", f"target {ev['target']}: covered solution of size {old['size']} replaced by another of the same size without an error fix", ev, idx)
         elif t == "mio.update":
             ctx.ok(cls=[f"mio.update:{kind}"])
             if ev["num_covered"] != len(ev["covered"]):
